@@ -4,7 +4,10 @@ import os, re, subprocess, json, sys
 PKG = {"C01":"proc/redis","C02":"proc/redis","C03":"proc/redis","C04":"proc/redis","C05":"proc/tcp","C06-a":"proc/internal/lb","C06-c":"proc/tcp","C06-d":"proc/tcp",
  "C07":"proc/redis","C08-a":"controller","C08-b":"config","C08-c":"config","C08-d":"config","C09-a":"proc","C09-b":"proc/redis","C09-c":"proc","C09-d":"proc/redis","C10":"proc/redis","C11":"proc/redis","C12":"proc/redis","C13":"proc/redis",
  "C14":"proc/redis","C15-a":"host","C15-b":"proc/internal/hc","C16":"config","C17":"cmd/samaritan/hotrestart","C18":"proc/redis","C19":"proc/redis/hotkey","C20-a":"proc","C20-b":"proc/redis","C20-c":"proc/redis","C20-d":"proc/tcp",
- "C15-c":"host","C15-d":"proc/internal/hc","C17-d":"proc","C19-d":"proc/redis"}
+ "C15-c":"host","C15-d":"proc/internal/hc","C17-d":"proc","C19-d":"proc/redis",
+ # third wave
+ "C05-e":"proc/tcp","C05-f":"proc/tcp","C06-e":"proc/tcp","C06-f":"proc/tcp","C08-e":"controller","C08-f":"controller","C09-e":"proc/redis","C09-f":"proc",
+ "C15-e":"host","C15-f":"host","C19-e":"proc/redis/hotkey","C19-f":"proc/redis/hotkey","C20-e":"proc/tcp","C20-f":"proc/redis"}
 root="/verif/seeded"
 only=sys.argv[1:]
 for d in sorted(os.listdir(root)):
